@@ -1,5 +1,6 @@
 (* Shared material for C06 (body reader refines the strict recogniser): counted list operations,
-   the byte source layer stated in terms of [src_rest] and the constant-fuel bound. *)
+   the byte source layer stated in terms of [reach] (the bytes still reachable through the optional
+   Read::take limit; equal to [src_rest] when there is none) and the constant-fuel bound. *)
 From KV Require Import Lib.Bytes Lib.Utf8 Model.Body Spec.ChunkedSpec.
 
 Local Open Scope N_scope.
@@ -77,6 +78,14 @@ Proof.
   rewrite lenN_cons in Hk. rewrite firstnN_cons by lia. rewrite IH by lia. reflexivity.
 Qed.
 
+Lemma firstnN_app_le k a b : lenN a <= k -> firstnN k (a ++ b) = a ++ firstnN (k - lenN a) b.
+Proof.
+  revert k. induction a as [|x a IH]; intros k Hk.
+  - rewrite lenN_nil, N.sub_0_r. reflexivity.
+  - rewrite lenN_cons in Hk. cbn [app]. rewrite firstnN_cons by lia. rewrite IH by lia.
+    rewrite lenN_cons. replace (N.pred k - lenN a) with (k - N.succ (lenN a)) by lia. reflexivity.
+Qed.
+
 Lemma skipnN_of_nat n l : skipnN (N.of_nat n) l = skipn n l.
 Proof.
   revert n. induction l as [|x r IH]; intros n.
@@ -138,28 +147,64 @@ Proof.
     destruct (take_n (n - N.succ (lenN out)) l) as [[d a]|]; reflexivity.
 Qed.
 
+(* a complete body seen through take(n): exactly its n bytes and nothing after *)
+Lemma take_n_firstnN n l d a : take_n n l = Some (d, a) -> take_n n (firstnN n l) = Some (d, []).
+Proof.
+  intros H. apply take_n_some in H. destruct H as [H1 H2]. subst l n.
+  rewrite firstnN_app_len. rewrite <- (app_nil_r d) at 2. rewrite take_n_app by lia.
+  rewrite N.sub_diag, take_n_0, app_nil_r. reflexivity.
+Qed.
+
 (* ------------------------------------------------------------------ the source *)
-Definition Bound (s : src) : Prop := (4 * S (length (src_rest s)) + 8 <= sfuel s)%nat.
+(* what is still reachable behind the BufReader: everything, or the first [lim] bytes under take(lim) *)
+Definition tail3 (l : bytes) (sg : list bytes) (tk : option N) : bytes :=
+  match tk with None => l ++ concat sg | Some lim => firstnN lim (l ++ concat sg) end.
+Definition reach (s : src) : bytes := bbuf s ++ tail3 (lo s) (segs s) (stake s).
+
+Lemma reach_none s : stake s = None -> reach s = src_rest s.
+Proof. intros H. unfold reach, src_rest, tail3. rewrite H. reflexivity. Qed.
+
+Lemma lenN_firstnN_le_len k l : lenN (firstnN k l) <= lenN l.
+Proof.
+  rewrite <- (firstnN_skipnN k l) at 2. rewrite lenN_app. lia.
+Qed.
+
+Lemma length_tail3_le l sg tk : (length (tail3 l sg tk) <= length (l ++ concat sg))%nat.
+Proof.
+  unfold tail3. destruct tk as [lim|]; [|lia].
+  pose proof (lenN_firstnN_le_len lim (l ++ concat sg)) as H. unfold lenN in H. lia.
+Qed.
+
+Definition Bound (s : src) : Prop := (4 * S (length (reach s)) + 8 <= sfuel s)%nat.
 
 Lemma Bound_mk lo st : Bound (mk_src lo st).
 Proof.
-  unfold Bound, mk_src, src_rest. cbn [bbuf Body.lo segs sfuel app].
+  unfold Bound, mk_src, reach, tail3. cbn [bbuf Body.lo segs sfuel stake app].
   rewrite app_length. lia.
 Qed.
 
-Lemma src_rest_mk lo st : src_rest (mk_src lo st) = lo ++ concat st.
+Lemma Bound_mk_take lo st n : Bound (mk_src_take lo st n).
+Proof.
+  unfold Bound, mk_src_take, reach. cbn [bbuf Body.lo segs sfuel stake app].
+  pose proof (length_tail3_le lo st (Some n)) as H. rewrite app_length in H. lia.
+Qed.
+
+Lemma reach_mk lo st : reach (mk_src lo st) = lo ++ concat st.
+Proof. reflexivity. Qed.
+
+Lemma reach_mk_take lo st n : reach (mk_src_take lo st n) = firstnN n (lo ++ concat st).
 Proof. reflexivity. Qed.
 
 Lemma Bound_shrink s s' : sfuel s' = sfuel s ->
-  (length (src_rest s') <= length (src_rest s))%nat -> Bound s -> Bound s'.
+  (length (reach s') <= length (reach s))%nat -> Bound s -> Bound s'.
 Proof. unfold Bound. intros Hf Hl Hb. rewrite Hf. lia. Qed.
 
-Lemma Bound_split s s' out : sfuel s' = sfuel s -> src_rest s = out ++ src_rest s' -> Bound s -> Bound s'.
+Lemma Bound_split s s' out : sfuel s' = sfuel s -> reach s = out ++ reach s' -> Bound s -> Bound s'.
 Proof.
   intros Hf Hs. apply Bound_shrink; [exact Hf|]. rewrite Hs, app_length. lia.
 Qed.
 
-Lemma Bound_fuel s : Bound s -> (length (src_rest s) < sfuel s /\ 12 <= sfuel s)%nat.
+Lemma Bound_fuel s : Bound s -> (length (reach s) < sfuel s /\ 12 <= sfuel s)%nat.
 Proof. unfold Bound. lia. Qed.
 
 Lemma stream_read_spec k sg : forall out sg', stream_read k sg = (out, sg') ->
@@ -194,20 +239,37 @@ Proof.
     + intros Hk Ho. exfalso. apply (firstnN_nonempty k L Hk); [subst L; discriminate|exact Ho].
 Qed.
 
+Lemma take_read_spec k s out l' sg' tk : take_read k s = (out, l', sg', tk) ->
+  tail3 (lo s) (segs s) (stake s) = out ++ tail3 l' sg' tk /\ lenN out <= k /\
+  (0 < k -> out = [] -> tail3 (lo s) (segs s) (stake s) = []).
+Proof.
+  unfold take_read, tail3. destruct (stake s) as [lim|].
+  - destruct (N.eqb_spec lim 0) as [E0|E0].
+    + intros H. inversion H. subst. rewrite !firstnN_0, lenN_nil. repeat split; lia.
+    + destruct (inner_read (N.min k lim) (lo s) (segs s)) as [[o l1] sg1] eqn:E.
+      intros H. inversion H. subst o l1 sg1 tk. clear H.
+      apply inner_read_spec in E. destruct E as [E1 [E2 E3]].
+      rewrite E1. split; [apply firstnN_app_le; lia|]. split; [lia|].
+      intros Hk Ho. rewrite <- E1, E3 by (lia || exact Ho). reflexivity.
+  - destruct (inner_read k (lo s) (segs s)) as [[o l1] sg1] eqn:E.
+    intros H. inversion H. subst o l1 sg1 tk. clear H.
+    apply inner_read_spec in E. exact E.
+Qed.
+
 Lemma fill_buf_spec s :
-  src_rest (fill_buf s) = src_rest s /\ sfuel (fill_buf s) = sfuel s /\
-  (bbuf (fill_buf s) = [] -> src_rest s = []).
+  reach (fill_buf s) = reach s /\ sfuel (fill_buf s) = sfuel s /\
+  (bbuf (fill_buf s) = [] -> reach s = []).
 Proof.
   unfold fill_buf. destruct (bbuf s) as [|x b] eqn:Eb.
-  - destruct (inner_read BUF_SIZE (lo s) (segs s)) as [[out l'] sg'] eqn:E.
-    apply inner_read_spec in E. destruct E as [E1 [E2 E3]].
-    unfold src_rest. cbn [bbuf lo segs sfuel]. rewrite Eb. cbn [app].
+  - destruct (take_read BUF_SIZE s) as [[[out l'] sg'] tk] eqn:E.
+    apply take_read_spec in E. destruct E as [E1 [E2 E3]].
+    unfold reach. cbn [bbuf lo segs sfuel stake]. rewrite Eb. cbn [app].
     split; [symmetry; exact E1|]. split; [reflexivity|].
     intros Ho. apply E3; [reflexivity|exact Ho].
   - split; [reflexivity|]. split; [reflexivity|]. rewrite Eb. discriminate.
 Qed.
 
-Lemma fill_buf_rest s : src_rest (fill_buf s) = src_rest s.
+Lemma fill_buf_rest s : reach (fill_buf s) = reach s.
 Proof. apply fill_buf_spec. Qed.
 Lemma fill_buf_fuel s : sfuel (fill_buf s) = sfuel s.
 Proof. apply fill_buf_spec. Qed.
@@ -216,29 +278,29 @@ Proof. apply Bound_shrink; [apply fill_buf_fuel|rewrite fill_buf_rest; lia]. Qed
 
 (* consuming a prefix of the buffer *)
 Lemma consume_prefix s out t : bbuf s = out ++ t ->
-  src_rest s = out ++ src_rest (consume (lenN out) s) /\ sfuel (consume (lenN out) s) = sfuel s.
+  reach s = out ++ reach (consume (lenN out) s) /\ sfuel (consume (lenN out) s) = sfuel s.
 Proof.
-  intros Hb. unfold src_rest, consume. cbn [bbuf lo segs sfuel]. rewrite Hb, skipnN_app_len.
+  intros Hb. unfold reach, consume. cbn [bbuf lo segs sfuel stake]. rewrite Hb, skipnN_app_len.
   rewrite <- app_assoc. split; reflexivity.
 Qed.
 
 Lemma consume_firstnN s k :
-  src_rest s = firstnN k (bbuf s) ++ src_rest (consume k s) /\ sfuel (consume k s) = sfuel s.
+  reach s = firstnN k (bbuf s) ++ reach (consume k s) /\ sfuel (consume k s) = sfuel s.
 Proof.
-  unfold src_rest, consume. cbn [bbuf lo segs sfuel].
+  unfold reach, consume. cbn [bbuf lo segs sfuel stake].
   rewrite (app_assoc (firstnN k (bbuf s))), firstnN_skipnN.
   split; reflexivity.
 Qed.
 
 Lemma buf_read_spec k s out s' : buf_read k s = (out, s') ->
-  src_rest s = out ++ src_rest s' /\ lenN out <= k /\ sfuel s' = sfuel s /\
-  (0 < k -> out = [] -> src_rest s = []).
+  reach s = out ++ reach s' /\ lenN out <= k /\ sfuel s' = sfuel s /\
+  (0 < k -> out = [] -> reach s = []).
 Proof.
   unfold buf_read. destruct (bbuf s) as [|x b] eqn:Eb.
   - destruct (N.leb BUF_SIZE k).
-    + destruct (inner_read k (lo s) (segs s)) as [[o l'] sg'] eqn:E. intros H. inversion H. subst.
-      apply inner_read_spec in E. destruct E as [E1 [E2 E3]].
-      unfold src_rest. cbn [bbuf lo segs sfuel]. rewrite Eb. cbn [app].
+    + destruct (take_read k s) as [[[o l'] sg'] tk] eqn:E. intros H. inversion H. subst.
+      apply take_read_spec in E. destruct E as [E1 [E2 E3]].
+      unfold reach. cbn [bbuf lo segs sfuel stake]. rewrite Eb. cbn [app].
       repeat split; assumption.
     + intros H. injection H as H1 H2. subst out s'.
       destruct (consume_firstnN (fill_buf s) k) as [C1 C2].
@@ -256,8 +318,8 @@ Qed.
 (* read_exact *)
 Lemma read_exact_loop_spec fuel : forall n s acc, (N.to_nat n <= fuel)%nat ->
   match read_exact_loop fuel n s acc with
-  | Some (x, s') => exists y, x = acc ++ y /\ src_rest s = y ++ src_rest s' /\ lenN y = n /\ sfuel s' = sfuel s
-  | None => lenN (src_rest s) < n
+  | Some (x, s') => exists y, x = acc ++ y /\ reach s = y ++ reach s' /\ lenN y = n /\ sfuel s' = sfuel s
+  | None => lenN (reach s) < n
   end.
 Proof.
   induction fuel as [|fuel IH]; intros n s acc Hf.
@@ -284,8 +346,8 @@ Qed.
 
 Lemma read_exact_spec n s :
   match read_exact n s with
-  | Some (x, s') => src_rest s = x ++ src_rest s' /\ lenN x = n /\ sfuel s' = sfuel s
-  | None => lenN (src_rest s) < n
+  | Some (x, s') => reach s = x ++ reach s' /\ lenN x = n /\ sfuel s' = sfuel s
+  | None => lenN (reach s) < n
   end.
 Proof.
   unfold read_exact. destruct (N.leb_spec n (lenN (firstnN n (bbuf s)))) as [L|L].
@@ -371,21 +433,21 @@ Definition line_of (U line rest : bytes) : Prop :=
   | None => line = U /\ rest = []
   end.
 
-Lemma read_until_lf_spec fuel : forall s acc, (length (src_rest s) < fuel)%nat ->
+Lemma read_until_lf_spec fuel : forall s acc, (length (reach s) < fuel)%nat ->
   exists line s', read_until_lf fuel s acc = (acc ++ line, s') /\ sfuel s' = sfuel s /\
-                  line_of (src_rest s) line (src_rest s').
+                  line_of (reach s) line (reach s').
 Proof.
   induction fuel as [|fuel IH]; intros s acc Hf; [lia|].
   cbn [read_until_lf].
   destruct (fill_buf_spec s) as [F1 [F2 F3]].
   remember (fill_buf s) as s1 eqn:Es1.
-  assert (HU : src_rest s = bbuf s1 ++ lo s1 ++ concat (segs s1)) by (rewrite <- F1; reflexivity).
+  assert (HU : reach s = bbuf s1 ++ tail3 (lo s1) (segs s1) (stake s1)) by (rewrite <- F1; reflexivity).
   destruct (find_index (Byte.eqb x0a) (bbuf s1)) as [i|] eqn:Efi.
-  - destruct (find_index_lf_some _ i (lo s1 ++ concat (segs s1)) Efi) as [T1 T2].
+  - destruct (find_index_lf_some _ i (tail3 (lo s1) (segs s1) (stake s1)) Efi) as [T1 T2].
     exists (firstn (S i) (bbuf s1)), (consume (N.of_nat (S i)) s1).
     split; [reflexivity|]. split; [cbn [consume sfuel]; exact F2|].
     unfold line_of. rewrite HU, T1. split; [exact T2|].
-    unfold src_rest, consume. cbn [bbuf lo segs]. rewrite skipnN_of_nat. reflexivity.
+    unfold reach, consume. cbn [bbuf lo segs stake]. rewrite skipnN_of_nat. reflexivity.
   - apply find_index_lf_none in Efi.
     destruct (bbuf s1) as [|x b] eqn:Eb.
     + exists [], s1. rewrite app_nil_r. split; [reflexivity|]. split; [exact F2|].
@@ -394,24 +456,24 @@ Proof.
     + rewrite <- Eb in *. remember (bbuf s1) as A eqn:EA.
       assert (HA : A <> []) by (rewrite Eb; discriminate).
       set (s2 := consume (lenN A) s1).
-      assert (H2 : src_rest s2 = lo s1 ++ concat (segs s1)).
-      { unfold s2, src_rest, consume. cbn [bbuf lo segs]. rewrite <- EA.
+      assert (H2 : reach s2 = tail3 (lo s1) (segs s1) (stake s1)).
+      { unfold s2, reach, consume. cbn [bbuf lo segs stake]. rewrite <- EA.
         rewrite <- (app_nil_r A) at 2. rewrite skipnN_app_len. reflexivity. }
-      assert (Hlen : (length (src_rest s2) < fuel)%nat).
+      assert (Hlen : (length (reach s2) < fuel)%nat).
       { rewrite H2. rewrite HU, app_length in Hf. destruct A; [congruence|]. cbn [length] in Hf. lia. }
       destruct (IH s2 (acc ++ A) Hlen) as [line [s' [R1 [R2 R3]]]].
       exists (A ++ line), s'. rewrite Eb at 1. rewrite <- Eb.
       split; [rewrite R1, app_assoc; reflexivity|].
       split; [rewrite R2; unfold s2; cbn [consume sfuel]; exact F2|].
       unfold line_of in *. rewrite HU, (to_lf_app_nolf A _ Efi). rewrite H2 in R3.
-      destruct (to_lf (lo s1 ++ concat (segs s1))) as [[bf r]|].
+      destruct (to_lf (tail3 (lo s1) (segs s1) (stake s1))) as [[bf r]|].
       * destruct R3 as [R3 R4]. subst line. rewrite app_assoc. split; [reflexivity|exact R4].
       * destruct R3 as [R3 R4]. subst line. split; [reflexivity|exact R4].
 Qed.
 
 Lemma read_line_spec s : Bound s ->
   exists line s', read_line s = ((if utf8_valid line then inl line else inr EInvalidData), s') /\
-                  sfuel s' = sfuel s /\ line_of (src_rest s) line (src_rest s').
+                  sfuel s' = sfuel s /\ line_of (reach s) line (reach s').
 Proof.
   intros Hb. apply Bound_fuel in Hb. destruct Hb as [Hb _].
   destruct (read_until_lf_spec (sfuel s) s [] Hb) as [line [s' [R1 [R2 R3]]]].
